@@ -4,6 +4,7 @@ C03 — CDecay yields the exact charge conjugate of the referenced decay table.
 `ChargeConjugateReplacement` visitor); `conjLine` is the specification of one conjugated line.
 -/
 import DL.Lemmas.Dict
+import DL.Lemmas.CCache
 namespace DL
 
 /-- parsing with charge-conjugate decays disabled adds no table -/
@@ -119,5 +120,108 @@ theorem C03_unknown_marked (db : DB) (n : String) (h : db.rowOfName n = none) :
 theorem C03_selfconj (db : DB) (n : String) (r : PRow) (h : db.rowOfName n = some r)
     (ht : r.inTable = true) (hs : r.invNeg = false) : db.conjName n = r.name := by
   simp [DB.conjName, h, DB.route1, ht, hs]
+
+/-! ### the growing dictionary of the visitor never changes an answer -/
+
+/-- C03 (cache): the visitor with its growing dictionary gives exactly what conjugating every name
+    independently with the original ChargeConj dictionary gives.  `hinv`: the database conjugation
+    is an involution on the names it does not wrap (discharged for the regenerated table in
+    `DL/Lemmas/CCacheGen.lean`); `hwrap`: no visited name is the wrapped form `ChargeConj(p)` of a
+    visited name -/
+theorem C03_cache (db : DB)
+    (hinv : ∀ n, db.conjName n ≠ wrapUnknown n → db.conjName (db.conjName n) = n)
+    (defs : List (String × String)) (ns : List String)
+    (hwrap : ∀ p ∈ ns, ∀ q ∈ ns, q ≠ wrapUnknown p) :
+    (visitNames db defs ns).1 = ns.map (matchCC db defs) :=
+  visitNames_eq_map db hinv defs ns hwrap
+
+/-- C03 (the conjugate table): the table created for a CDecay has the lines of its source in the
+    same order with identical branching fractions, PHOTOS flags, models and parameters, every
+    daughter replaced by its conjugate under the original dictionary, and is named by the conjugate
+    of the source's name -/
+theorem C03_table (db : DB)
+    (hinv : ∀ n, db.conjName n ≠ wrapUnknown n → db.conjName (db.conjName n) = n)
+    (defs : List (String × String)) (src : String) (ls : List Line)
+    (hwrap : ∀ p ∈ visitOrder src ls, ∀ q ∈ visitOrder src ls, q ≠ wrapUnknown p) :
+    (conjTable db defs src ls).1 =
+      (matchCC db defs src, ls.map (fun ln => { ln with ds := ln.ds.map (matchCC db defs) })) := by
+  simp only [conjTable]
+  rw [C03_cache db hinv defs _ hwrap]
+  simp only [visitOrder, List.map_append, List.map_cons, List.map_nil]
+  have hlen : ((ls.flatMap (·.ds)).map (matchCC db defs)).length = (ls.flatMap (·.ds)).length := by
+    simp
+  congr 1
+  · rw [List.getD_eq_getElem?_getD, List.getElem?_append_right (by rw [hlen]; exact Nat.le_refl _)]
+    simp
+  · rw [List.take_append_of_le_length (by rw [hlen]; exact Nat.le_refl _),
+      List.take_of_length_le (by rw [hlen]; exact Nat.le_refl _)]
+    exact rebuildLines_map _ ls
+
+/-- the dictionary left behind by the visitor answers like the original one -/
+theorem C03_cache_defs (db : DB)
+    (hinv : ∀ n, db.conjName n ≠ wrapUnknown n → db.conjName (db.conjName n) = n) :
+    ∀ (defs : List (String × String)) (ns : List String) (q : String),
+      (∀ p ∈ ns, q ≠ wrapUnknown p) →
+      matchCC db (visitNames db defs ns).2 q = matchCC db defs q
+  | _, [], _, _ => rfl
+  | defs, p :: r, q, h => by
+    simp only [visitNames]
+    rw [C03_cache_defs db hinv _ r q (fun a ha => h a (List.mem_cons_of_mem _ ha))]
+    exact matchCC_dset_cache db hinv defs p q (h p List.mem_cons_self)
+
+/-- C03 (all CDecay tables of a parse, ONE shared dictionary): every created table is the
+    conjugate of its source under the original ChargeConj dictionary, whatever was conjugated
+    before it -/
+theorem C03_tables (db : DB)
+    (hinv : ∀ n, db.conjName n ≠ wrapUnknown n → db.conjName (db.conjName n) = n) :
+    ∀ (defs : List (String × String)) (srcs : List (String × List Line)),
+      (∀ p ∈ srcs.flatMap (fun s => visitOrder s.1 s.2),
+        ∀ q ∈ srcs.flatMap (fun s => visitOrder s.1 s.2), q ≠ wrapUnknown p) →
+      conjAll db defs srcs = srcs.map (fun s =>
+        (matchCC db defs s.1, s.2.map (fun ln => { ln with ds := ln.ds.map (matchCC db defs) })))
+  | _, [], _ => rfl
+  | defs, (src, ls) :: r, hwrap => by
+    simp only [List.flatMap_cons, List.mem_append] at hwrap
+    have h1 := C03_table db hinv defs src ls
+      (fun p hp q hq => hwrap p (Or.inl hp) q (Or.inl hq))
+    have ih := C03_tables db hinv (conjTable db defs src ls).2 r
+      (fun p hp q hq => hwrap p (Or.inr hp) q (Or.inr hq))
+    have hdefs : ∀ q ∈ r.flatMap (fun s => visitOrder s.1 s.2),
+        matchCC db (conjTable db defs src ls).2 q = matchCC db defs q := by
+      intro q hq
+      simp only [conjTable]
+      exact C03_cache_defs db hinv defs _ q (fun p hp => hwrap p (Or.inl hp) q (Or.inr hq))
+    simp only [conjAll, List.map_cons]
+    rw [h1, ih]
+    congr 1
+    apply List.map_congr_left
+    intro s hs
+    have hsrc : s.1 ∈ r.flatMap (fun s => visitOrder s.1 s.2) :=
+      List.mem_flatMap.mpr ⟨s, hs, by simp [visitOrder]⟩
+    rw [hdefs s.1 hsrc]
+    congr 1
+    apply List.map_congr_left
+    intro ln hln
+    congr 1
+    apply List.map_congr_left
+    intro d hd
+    exact hdefs d (List.mem_flatMap.mpr ⟨s, hs, by
+      simp only [visitOrder, List.mem_append, List.mem_flatMap]
+      exact Or.inl ⟨ln, hln, hd⟩⟩)
+
+/-- the name hypothesis `hwrap` is satisfiable on a concrete case (an alias pair and database
+    names), and both sides of `C03_cache` evaluate to the expected names on a small database; the
+    same example over the regenerated table, where `hinv` is a theorem, is in
+    `DL/Lemmas/CCacheGen.lean` -/
+example :
+    let db : DB := { rows := [⟨"K+", 321, true, true⟩, ⟨"K-", -321, true, true⟩,
+                              ⟨"pi+", 211, true, true⟩, ⟨"pi-", -211, true, true⟩],
+                     pdg2evt := [], evt2pdg := [] }
+    let defs := [("MyD+", "MyD-")]
+    let ns := ["K-", "pi+", "MyD+"]
+    (∀ p ∈ ns, ∀ q ∈ ns, q ≠ wrapUnknown p) ∧
+    (visitNames db defs ns).1 = ["K+", "pi-", "MyD-"] ∧
+    ns.map (matchCC db defs) = ["K+", "pi-", "MyD-"] := by
+  decide
 
 end DL
